@@ -1,6 +1,7 @@
-(* Tie (C17): the statement shapes of the five moves that the model mirrors (index sets, the case
-   table of swapRandChargeRes, pop-from-end in full_shuffle, the min:max slices of the block swap,
-   the two pop(0) queues of clustering, dmax carried into the child) are present in the source. *)
+(* Tie (C17): the statement shapes of the two Monte-Carlo moves that are NOT tied as whole functions (the min:max slices
+   of the block swap, the two pop(0) queues of clustering, dmax carried into the child) and the forwarding of
+   get_shuffled_sequence / get_permutant to full_shuffle are present in the source.  swapRes, swapRandChargeRes,
+   full_shuffle and the constructor are tied semantically in minipy_moves_tie.v. *)
 From LC Require Import Gen.GSeq.
 Lemma moves_shape_tie : g_moves_shape_ok = true.
 Proof. reflexivity. Qed.
